@@ -589,6 +589,19 @@ impl<'c> Runner<'c> {
 				Some(p) => mark(if p.is_poisoned() { 12 } else { 10 }),
 				None => mark(14),
 			},
+			Stmt::TryNew(kind, e) => {
+				use happylock::collection::{BoxedLockCollection, RefLockCollection, RetryingLockCollection};
+				let inner = self.case.build_expr(e, &mut self.built);
+				let accepted = match kind {
+					b'B' => BoxedLockCollection::try_new(inner).is_some(),
+					b'F' => {
+						let r: &'static Node = crate::case::leak(inner);
+						RefLockCollection::try_new(r).is_some()
+					}
+					_ => RetryingLockCollection::try_new(inner).is_some(),
+				};
+				mark(if accepted { 10 } else { 11 })
+			}
 			Stmt::ClearPoison(c) => match self.top_poisonable(*c) {
 				Some(p) => {
 					p.clear_poison();
